@@ -273,8 +273,9 @@ impl BlockData {
 
         match self.last_slice {
             None if is_last => {
-                // a stored shred of a later slice contradicts this last-slice marker
-                if self.shreds.keys().any(|&ind| ind > slice_index) {
+                // a signed shred of a later slice contradicts this last-slice marker; the commitment
+                // cache remembers every slice a verified shred was seen of, stored or not
+                if self.commitment_cache.keys().any(|&ind| ind > slice_index) {
                     return Err(AddShredError::Equivocation);
                 }
                 self.mark_last_slice(slice_index);
